@@ -2,46 +2,135 @@ package main
 
 import (
 	"fmt"
-	"math"
 	"time"
 
+	"github.com/unixpickle/model3d/model2d"
 	"github.com/unixpickle/model3d/model3d"
+	"verif/vlib"
 )
 
+type C3 = model3d.Coord3D
+
+type fsolid struct {
+	min, max C3
+	f        func(C3) bool
+}
+
+func (s *fsolid) Min() C3 { return s.min }
+func (s *fsolid) Max() C3 { return s.max }
+func (s *fsolid) Contains(p C3) bool {
+	if p.X < s.min.X || p.Y < s.min.Y || p.Z < s.min.Z || p.X > s.max.X || p.Y > s.max.Y || p.Z > s.max.Z {
+		return false
+	}
+	return s.f(p)
+}
+
+func within(d time.Duration, f func() string) string {
+	ch := make(chan string, 1)
+	go func() { ch <- f() }()
+	select {
+	case s := <-ch:
+		return s
+	case <-time.After(d):
+		return fmt.Sprintf("DID NOT RETURN within %v", d)
+	}
+}
+
+func topo(m *model3d.Mesh) string {
+	t := vlib.AnalyzeTris(vlib.Tris(m))
+	return fmt.Sprintf("faces=%d vertices=%d closed-oriented-manifold=%v euler=%d nonmanifold-edges=%d", t.Faces, t.Vertices, t.ClosedOrientedManifold(), t.Euler, t.NonManifoldEdges)
+}
+
 func main() {
+	sq := func(pts ...model2d.Coord) *model2d.Mesh {
+		m := model2d.NewMesh()
+		for i := range pts {
+			m.Add(&model2d.Segment{pts[i], pts[(i+1)%len(pts)]})
+		}
+		return m
+	}
+	one := sq(model2d.XY(0, 0), model2d.XY(2, 0), model2d.XY(4, 0), model2d.XY(4, 4), model2d.XY(0, 4))
+	two := sq(model2d.XY(0, 0), model2d.XY(1, 0), model2d.XY(2, 0), model2d.XY(4, 0), model2d.XY(4, 4), model2d.XY(0, 4))
+	fmt.Println("F1 one split point :", within(3*time.Second, func() string {
+		r := one.EliminateColinear(1e-8)
+		return fmt.Sprintf("%d segments, manifold=%v", r.NumSegments(), vlib.AnalyzeSegs(vlib.Segs(r)).ClosedOrientedManifold())
+	}))
+	fmt.Println("F1 two split points:", within(3*time.Second, func() string {
+		r := two.EliminateColinear(1e-8)
+		return fmt.Sprintf("%d segments, manifold=%v", r.NumSegments(), vlib.AnalyzeSegs(vlib.Segs(r)).ClosedOrientedManifold())
+	}))
+
+	base := model3d.NewMeshIcosphere(model3d.XYZ(0.1, 0.2, 0.3), 1, 2)
+	var counts []int
+	for rot := 0; rot < 3; rot++ {
+		m := model3d.NewMesh()
+		base.Iterate(func(t *model3d.Triangle) {
+			m.Add(&model3d.Triangle{t[rot%3], t[(rot+1)%3], t[(rot+2)%3]})
+		})
+		n := 0
+		m.EliminateEdges(func(tmp *model3d.Mesh, s model3d.Segment) bool { n++; return false })
+		counts = append(counts, n)
+	}
+	fmt.Println("F2 icosphere(n=2), 120 edges, offered per rotation of the stored face vertices:", counts)
+
+	// F3 prism
+	ring := func(l int) []C3 {
+		return []C3{model3d.XYZ(0, 0, float64(l)), model3d.XYZ(4, 0, float64(l)), model3d.XYZ(0, 4, float64(l))}
+	}
+	pm := model3d.NewMesh()
+	add := func(a, b, c C3) { pm.Add(&model3d.Triangle{c, a, b}) } // stored rotated by 2
+	quad := func(p1, p2, p3, p4 C3) { add(p1, p2, p4); add(p2, p3, p4) }
+	b, t := ring(0), ring(3)
+	add(b[0], b[2], b[1])
+	add(t[0], t[1], t[2])
+	for l := 0; l < 3; l++ {
+		lo, hi := ring(l), ring(l+1)
+		for i := 0; i < 3; i++ {
+			j := (i + 1) % 3
+			quad(lo[i], lo[j], hi[j], hi[i])
+		}
+	}
+	target := model3d.NewSegment(model3d.XYZ(0, 0, 1), model3d.XYZ(4, 0, 1))
+	done := false
+	r := pm.EliminateEdges(func(tmp *model3d.Mesh, s model3d.Segment) bool {
+		if !done && s == target {
+			done = true
+			return true
+		}
+		return false
+	})
+	fmt.Println("F3 prism input:", topo(pm), "; segment offered:", done, "; result:", topo(r))
+
+	tm := model3d.SubdivideEdges(model3d.NewMeshTorus(C3{}, model3d.Z(1), 0.3, 1, 3, 3), 2)
+	fmt.Println("F4 SubdivideEdges(torus 3x3, 2): input", topo(tm), "; FlipDelaunay:", within(5*time.Second, func() string { return topo(tm.FlipDelaunay()) }))
 	A := model3d.XYZ(-0x1.55a8b08c582b3p-03, 0x1.25d2f14776446p-05, -0x1.9415c5f2400c9p-03)
 	B := model3d.XYZ(-0x1.81c8a8900c015p-06, 0x1.3ce3d2bcd02efp-05, 0x1.1c4d6f3f34401p-05)
 	C := model3d.XYZ(0x1.cb7b97d3da45fp-08, 0x1.3873ba662ae0ap-03, 0x1.06ed38090a12p-02)
 	D := model3d.XYZ(0x1.3cbf27af19aadp-03, -0x1.62521e18234adp-03, -0x1.242cc93c3b1p-05)
-	m := model3d.NewMesh()
-	m.Add(&model3d.Triangle{A, B, C})
-	m.Add(&model3d.Triangle{A, C, D})
-	m.Add(&model3d.Triangle{A, D, B})
-	m.Add(&model3d.Triangle{B, D, C})
-	ang := func(o, p, q model3d.Coord3D) float64 {
-		a, b := p.Sub(o), q.Sub(o)
-		return math.Atan2(a.Cross(b).Norm(), a.Dot(b))
-	}
-	pts := map[string]model3d.Coord3D{"A": A, "B": B, "C": C, "D": D}
-	names := []string{"A", "B", "C", "D"}
-	for i := 0; i < 4; i++ {
-		for j := i + 1; j < 4; j++ {
-			var o []string
-			for _, n := range names {
-				if n != names[i] && n != names[j] {
-					o = append(o, n)
-				}
-			}
-			s := ang(pts[o[0]], pts[names[i]], pts[names[j]]) + ang(pts[o[1]], pts[names[i]], pts[names[j]])
-			fmt.Printf("edge %s%s: opposite angle sum = pi%+.4f\n", names[i], names[j], s-math.Pi)
+	tet := model3d.NewMeshTriangles([]*model3d.Triangle{{A, B, C}, {A, C, D}, {A, D, B}, {B, D, C}})
+	fmt.Println("F4 flat tetrahedron: input", topo(tet), "; FlipDelaunay:", within(5*time.Second, func() string { return topo(tet.FlipDelaunay()) }))
+
+	sph := func(c C3, r float64) func(C3) bool { return func(p C3) bool { return p.Dist(c) < r } }
+	cyl := func(p1, p2 C3, r float64) func(C3) bool {
+		ax := p2.Sub(p1)
+		l := ax.Norm()
+		ax = ax.Scale(1 / l)
+		return func(p C3) bool {
+			v := p.Sub(p1)
+			t := v.Dot(ax)
+			return t >= 0 && t <= l && v.Sub(ax.Scale(t)).Norm() < r
 		}
 	}
-	done := make(chan int, 1)
-	go func() { done <- m.FlipDelaunay().NumTriangles() }()
-	select {
-	case n := <-done:
-		fmt.Println("returned", n)
-	case <-time.After(3 * time.Second):
-		fmt.Println("HUNG")
+	bmin, bmax := model3d.XYZ(0.0823962467509296, -0.08347469738537877, -0.019900975554890954), model3d.XYZ(0.4996768085494454, 0.24056143270989827, 0.3627988989415674)
+	s1 := sph(model3d.XYZ(-0.20784099831707475, 0.017691417326075265, 0.004427855290237148), 0.3935867593707256)
+	cy := cyl(model3d.XYZ(0.3941812302195531, 0.2159383268747438, -0.4754002127381401), model3d.XYZ(0.018092238622877732, 0.1417389089843314, -0.15059592110512077), 0.20416973824864942)
+	s2 := sph(model3d.XYZ(0.4590546490695051, 0.3929888686019559, -0.1517629825240983), 0.5037791891109751)
+	solid := &fsolid{bmin, bmax, func(p C3) bool { return !s1(p) && !(cy(p) && !s2(p)) }}
+	mc := model3d.MarchingCubes(solid, 0.03477338014987632)
+	fmt.Println("F5 input:", topo(mc))
+	for _, sa := range []int{1, 2, 5} {
+		d := &model3d.Decimator{FeatureAngle: 1.3277492303521596, PlaneDistance: 0.0006484427873890913, BoundaryDistance: 0.0008129561801061474, NoEdgePreservation: true, SplitAttempts: sa}
+		start := time.Now()
+		fmt.Printf("F5 SplitAttempts=%d: %s (%.2fs)\n", sa, within(60*time.Second, func() string { return topo(d.Decimate(mc)) }), time.Since(start).Seconds())
 	}
 }
